@@ -99,6 +99,8 @@ class G:
                 allowed = ["buffer"]              # their blocking FIRST_AVAILABLE branch accepts Buffer out-edges only (explicit ValueError otherwise)
             if st == "chaos_producer":
                 allowed = ["buffer", "buffer", "fleet"]
+        if self.opts.get("conv_bias") and "cconv" in allowed:
+            allowed = ["buffer", "cconv", "cconv", "cconv", "sconv"]
         t = force or rng.choice(allowed)
         e = {"id": self.nid("E"), "type": t, "src": src["id"], "dst": dst["id"], "cap": rng.choice([1, 1, 2, 2, 3, 4, 5])}
         pos = [x for x in self.lat if x > 0]
@@ -133,7 +135,10 @@ def finish_policies(g):
             if preset is not None:
                 n["out_sel"] = preset
         if t in ("machine", "splitter"):
+            preset = n.get("in_sel")
             n["in_sel"] = policy_spec(rng, nin.get(n["id"], 1))
+            if preset is not None:
+                n["in_sel"] = preset
             if max(nin.get(n["id"], 1), nout.get(n["id"], 1)) >= 2 and rng.random() < 0.08:
                 n["in_sel"] = n["out_sel"] = "ROUND_ROBIN"         # the same stateful policy on both sides of one node
 
@@ -147,6 +152,8 @@ def build_topology(g, prop):
         tmpl = "combiner"
     if prop in ("C10", "C15", "C06", "C03", "C20") and rng.random() < 0.1:
         tmpl = "splitter_fanin"
+    if g.opts.get("conv_bias") and rng.random() < 0.4:
+        tmpl = "conv_fanin"
     if prop == "C16":
         tmpl = "combiner"
     if prop in ("C03", "C08", "C09", "C10", "C16", "C17", "C18", "C20") and rng.random() < 0.12:
@@ -263,6 +270,26 @@ def build_topology(g, prop):
             e["delay"] = rng.choice([0, 0, gap, 2 * gap])
             e["cap"] = rng.choice([1, 2])
         end(m)
+    elif tmpl == "conv_fanin":
+        # several conveyors feed one slow FIRST_AVAILABLE consumer: it reserves on all of them and cancels the rest every cycle, so heads
+        # wait at the exits (stalls with followers) and granted retrievals are withdrawn in the instant they were granted
+        m = g.machine() if rng.random() < 0.75 else g.sink()
+        if m["type"] == "machine":
+            m["wc"] = rng.choice([1, 1, 2])
+            m["pdelay"] = {"form": "const", "vals": [rng.choice([1, 1.5, 2, 3])]}
+            m["in_sel"] = "FIRST_AVAILABLE" if rng.random() < 0.8 else None
+            m["blocking"] = True
+        for i in range(rng.choice([2, 2, 3])):
+            s = g.source(n_items=rng.choice([6, 10, 16]), blocking=True)
+            if rng.random() < 0.7:
+                s["iat"] = {"form": "const", "vals": [rng.choice([0.5, 1, 1, 1.5, 2])]}
+            e = g.edge(s, m, force=rng.choice(["cconv", "cconv", "cconv", "sconv", "buffer"]))
+            if e["type"] == "cconv":
+                e["accumulating"] = rng.choice([0, 0, 1])
+        if m["type"] == "machine":
+            if m["in_sel"] is None:
+                del m["in_sel"]
+            end(m)
     elif tmpl == "splitter_fanin":
         # a splitter fed by several pallet sources (empty pallets): its reserve-on-all / cancel-the-rest input side
         sp = g.splitter()
